@@ -337,6 +337,10 @@ func verifyIden3SparseMerkleTreeProof(ctx context.Context,
 	if proof.IssuerData.State.ClaimsTreeRoot == nil {
 		return errors.New("issuer claims tree root is not set")
 	}
+	// RootFromProof also computes a root for proofs of non-existence
+	if !proof.MTP.Existence {
+		return errors.New("merkle tree proof is not a proof of existence")
+	}
 
 	rootFromProof, err := merkletree.RootFromProof(proof.MTP, hi, hv)
 	if err != nil {
